@@ -10,5 +10,5 @@ rm -f model.ml model.mli
 timeout 600 coqc -Q "$VERIF/coq" Olareg "$VERIF/coq/Extract.v" -o "$OUT/Extract.vo" >/dev/null
 cp "$HERE"/*.ml .
 MODS="model.mli model.ml sexp.ml conv.ml sha2.ml"
-for m in c18 reg cachedrv ; do MODS="$MODS $m.ml"; done
+for m in c18 reg cachedrv confdrv ; do MODS="$MODS $m.ml"; done
 ocamlfind ocamlopt -O2 -w -a $MODS driver.ml -o "$VERIF/bin/modelrun" 2>/dev/null || ocamlfind ocamlopt -w -a $MODS driver.ml -o "$VERIF/bin/modelrun"
